@@ -110,43 +110,68 @@ def history_ok(kinds: List[int], paths: List[List[int]], reach=None) -> bool:
     return True
 
 
-def _pre(kinds, paths):
+def _pre(args):
     n, m = SLICE.get("n", 3), SLICE.get("m", 2)
     hi = SLICE.get("codes", 4)          # codes 0..hi-1 (3 = the invalid call site)
-    if len(kinds) != n or len(paths) != n:
-        return False
     kmax = SLICE.get("kmax", 2)         # 1: only add/remove, 2: add/remove/exists
+    fixed = SLICE.get("kinds")          # optional fixed kind pattern
+    prefix = SLICE.get("prefix") or ([SLICE["first"]] if SLICE.get("first") else [])
     for i in range(n):
-        if not (0 <= kinds[i] <= kmax):
+        k, l = args[5 * i], args[5 * i + 1]
+        if not (0 <= k <= kmax):
             return False
-        if len(paths[i]) > m:
+        if fixed is not None and k != fixed[i]:
             return False
-        for c in paths[i]:
-            if not (0 <= c < hi):
+        if not (0 <= l <= m):
+            return False
+        if i < len(prefix):
+            if k != prefix[i][0] or l != len(prefix[i][1]):
                 return False
-    first = SLICE.get("first")
-    if first is not None:
-        if kinds[0] != first[0] or len(paths[0]) != len(first[1]):
-            return False
-        for j in range(len(first[1])):
-            if paths[0][j] != first[1][j]:
-                return False
+        for j in range(3):
+            if j < l:
+                c = args[5 * i + 2 + j]
+                if not (0 <= c < hi):
+                    return False
+                if i < len(prefix) and c != prefix[i][1][j]:
+                    return False
     return True
 
 
-def check_history(kinds: List[int], paths: List[List[int]]) -> bool:
+def _paths_of(args):
+    n = SLICE.get("n", 3)
+    kinds, paths = [], []
+    for i in range(n):
+        l = args[5 * i + 1]
+        kinds.append(args[5 * i])
+        p = []
+        for j in range(3):
+            if j < l:
+                p.append(args[5 * i + 2 + j])
+        paths.append(p)
+    return kinds, paths
+
+
+def check_history(k0: int, l0: int, a0: int, b0: int, c0: int, k1: int, l1: int, a1: int, b1: int, c1: int,
+                  k2: int, l2: int, a2: int, b2: int, c2: int, k3: int, l3: int, a3: int, b3: int, c3: int,
+                  k4: int, l4: int, a4: int, b4: int, c4: int) -> bool:
     """
-    pre: _pre(kinds, paths)
+    pre: _pre((k0, l0, a0, b0, c0, k1, l1, a1, b1, c1, k2, l2, a2, b2, c2, k3, l3, a3, b3, c3, k4, l4, a4, b4, c4))
     post: _
     """
+    kinds, paths = _paths_of((k0, l0, a0, b0, c0, k1, l1, a1, b1, c1, k2, l2, a2, b2, c2, k3, l3, a3, b3, c3,
+                              k4, l4, a4, b4, c4))
     return history_ok(kinds, paths)
 
 
-def check_history_reach(kinds: List[int], paths: List[List[int]]) -> bool:
+def check_history_reach(k0: int, l0: int, a0: int, b0: int, c0: int, k1: int, l1: int, a1: int, b1: int, c1: int,
+                        k2: int, l2: int, a2: int, b2: int, c2: int, k3: int, l3: int, a3: int, b3: int, c3: int,
+                        k4: int, l4: int, a4: int, b4: int, c4: int) -> bool:
     """
-    pre: _pre(kinds, paths)
+    pre: _pre((k0, l0, a0, b0, c0, k1, l1, a1, b1, c1, k2, l2, a2, b2, c2, k3, l3, a3, b3, c3, k4, l4, a4, b4, c4))
     post: _
     """
+    kinds, paths = _paths_of((k0, l0, a0, b0, c0, k1, l1, a1, b1, c1, k2, l2, a2, b2, c2, k3, l3, a3, b3, c3,
+                              k4, l4, a4, b4, c4))
     return history_ok(kinds, paths, reach=1)
 
 
@@ -189,11 +214,11 @@ def count_cycles_ref(pairs):
     return n
 
 
-def check_count_cycles(ids: List[int]) -> bool:
+def check_count_cycles(i0: int, i1: int, i2: int, i3: int, i4: int, i5: int, i6: int, i7: int) -> bool:
     """
-    pre: len(ids) == 2 * SLICE.get("n", 3)
     post: _
     """
+    ids = [i0, i1, i2, i3, i4, i5, i6, i7][:2 * SLICE.get("n", 3)]
     pairs = [(ids[2 * i], ids[2 * i + 1]) for i in range(len(ids) // 2)]
     cp = CallPath(tuple(CallSite(a, 7, b) for (a, b) in pairs))
     got = cp.count_cycles()
@@ -208,7 +233,7 @@ def check_count_cycles(ids: List[int]) -> bool:
 # ---- native warm-up / smoke test --------------------------------------------------------------
 assert history_ok([0, 2, 1], [[0, 1], [0, 1], [0, 1]]) in (True, False)
 assert check_callsite(1, 2, 3, 1, 2, 3)
-assert check_count_cycles([1, 2, 2, 1, 1, 3])
+assert check_count_cycles(1, 2, 2, 1, 1, 3, 0, 0)
 
 
 def replay(func, cex):
@@ -229,6 +254,6 @@ def replay(func, cex):
                 "fingerprint": f"{cex['kind']}:{cex['a']}:{cex['b']}"}
     if func == "check_count_cycles":
         xh.SLICE["n"] = len(cex["ids"]) // 2
-        ok = check_count_cycles(cex["ids"])
+        ok = check_count_cycles(*(list(cex["ids"]) + [0] * 8)[:8])
         return {"violated": not ok, "what": f"count_cycles ids={cex['ids']}", "fingerprint": f"cc:{cex['ids']}"}
     raise ValueError(func)
